@@ -603,6 +603,11 @@ def nearmiss(rng, t, allow_none=True):
             return ([nm[0]], "vtuple-item:" + nm[1])
         return ({"a": 1}, "dict-for-tuple")
     if k == "set":
+        ck = t.children[0].kind
+        if ck in ("int", "float", "bool") and rng.random() < 0.4:
+            # an item of the wrong type that is equal (and hashes equal) to a valid item given before it
+            good, bad = {"int": (1, True), "float": (1.0, True), "bool": (True, 1)}[ck]
+            return ([good, bad], f"set-item-equal-to-valid-item:{type(bad).__name__}-for-{ck}")
         nm = nearmiss(rng, t.children[0])
         if nm is not None and rng.random() < 0.6 and not isinstance(nm[0], (list, dict)):
             return ([nm[0]], "set-item:" + nm[1])
